@@ -60,6 +60,13 @@ def cases(tier, seed):
                             out.append({"key": f"trunc/{base}/R=1/scale=2^{e}", "entry": "classical_qsvd", "m": m, "n": n, "vals": vals, "kU": kU, "kV": kV, "row": row, "R": 1, "scale": e})
                     for R in range(1, p + 1):
                         out.append({"key": f"trunc/{base}/R={R}", "entry": "classical_qsvd", "m": m, "n": n, "vals": vals, "kU": kU, "kV": kV, "row": row, "R": R})
+    # enumerated list of larger shapes, simple spectra
+    for (m, n) in ((9, 7), (7, 9), (12, 12), (17, 5), (5, 17), (33, 2), (2, 33)):
+        p = min(m, n)
+        vals = [float(2.0 ** (2 - t)) for t in range(p)]
+        out.append({"key": f"full/large/{m}x{n}", "entry": "classical_qsvd_full", "m": m, "n": n, "vals": vals, "kU": "hh", "kV": "hh", "row": 0, "R": None})
+        for R in sorted({1, p // 2 + 1, p}):
+            out.append({"key": f"trunc/large/{m}x{n}/R={R}", "entry": "classical_qsvd", "m": m, "n": n, "vals": vals, "kU": "hh", "kV": "hh", "row": 0, "R": R})
     return out
 
 
